@@ -483,3 +483,448 @@ if __name__ == "__main__":
         print("failures=%d" % len(fs))
     finally:
         shutil.rmtree(work, ignore_errors=True)
+
+
+# ------------------------------------------------------------------------------------------------
+# shared sentence material for the metamorphic oracles
+
+LINKING = {}
+
+
+def linking_words(lang):
+    if lang not in LINKING:
+        import vocab
+        p = os.path.join(t2nlib.REPO, "src", "lang", lang, "vocabulary.rs")
+        ws = [w for w in vocab.LIT.findall(open(p, encoding="utf-8").read()) if " " not in w]
+        LINKING[lang] = ws
+    return LINKING[lang]
+
+
+def phrase_bank(ctx, lang):
+    """spelled numbers (cardinals, ordinals, decimals) from the Lean spec; falls back to single words"""
+    key = "bank_" + lang
+    if key in ctx._cache:
+        return ctx._cache[key]
+    rng = SplitMix64(ctx.seed * 977 + len(lang) * 31 + ord(lang[0]))
+    gl = []
+    for n in [0, 1, 2, 3, 5, 7, 8, 9, 10, 11, 12, 15, 16, 20, 21, 22, 30, 31, 45, 70, 71, 80, 81, 90, 99, 100, 101, 115,
+              200, 342, 1000, 1001, 1999, 2020, 10000, 21000, 100000, 1000000, 2000100, 53000243724]:
+        gl.append("gen\tcard\t%s\t%d\t%d" % (lang, n, 0))
+        gl.append("gen\tcard\t%s\t%d\t%d" % (lang, n, 1 + rng.below(10 ** 6)))
+    for _ in range(60):
+        gl.append("gen\tcard\t%s\t%d\t%d" % (lang, rng.below(10 ** rng.choice([1, 1, 2, 2, 3, 4, 6, 9, 12])), rng.below(10 ** 6)))
+    for r in [1, 2, 3, 4, 5, 8, 9, 10, 11, 12, 20, 21, 30, 100, 101, 1000]:
+        for i in range(2):
+            gl.append("gen\tord\t%s\t%d\t%d\t%d" % (lang, r, rng.below(100), i))
+    for _ in range(25):
+        gl.append("gen\tdec\t%s\t%d\t%d\t%s" % (lang, rng.below(1000), rng.below(100), "".join(str(rng.below(10)) for _ in range(1 + rng.below(3)))))
+    cases = _spec_cases(ctx, "bank" + lang, gl)
+    bank = [c[1] for c in cases if c[1]]
+    if len(bank) < 10:
+        bank = [w for w in streams.bank(lang)["num"] if w.isalpha()][:200]
+    ctx._cache[key] = bank
+    return bank
+
+
+PUNCT = [", ", ". ", "; ", ": ", "! ", "? ", " (", ") ", " - ", " / ", "... ", " \"", "\" ", ".", ","]
+
+
+def sentence(rng, lang, bank, k=None, seps=None, extra=()):
+    """random sentence: number phrases, ordinary words, linking words, punctuation"""
+    k = k if k is not None else 1 + rng.below(6)
+    ord_ = streams.ORDINARY[lang]
+    link = linking_words(lang)
+    parts = []
+    for i in range(k):
+        r = rng.below(100)
+        if r < 50:
+            w = rng.choice(bank)
+        elif r < 70:
+            w = rng.choice(ord_)
+        elif r < 82:
+            w = rng.choice(link)
+        elif r < 90 and extra:
+            w = rng.choice(extra)
+        else:
+            w = rng.choice(streams.bank(lang)["num"])
+        if i:
+            parts.append(rng.choice(seps) if seps else (" " if rng.chance(3, 4) else rng.choice(PUNCT)))
+        parts.append(w)
+    return "".join(parts)
+
+
+def parse_occ_answer(ans):
+    """`occ` answer -> (list of (start, end, text, ord, valbits), list of (token text, nan))"""
+    if ans == "PANIC":
+        return None, None
+    o, t = ans.split("|", 1)
+    occs = []
+    for x in o.split(","):
+        if x:
+            se, text, od, vb = x.split(":")
+            s, e = se.split("-")
+            occs.append((int(s), int(e), unesc(text), od == "1", vb))
+    toks = []
+    for x in t.split(","):
+        if x != "":
+            tt, nan = x.rsplit(":", 1)
+            toks.append((unesc(tt), nan == "1"))
+    return occs, toks
+
+
+ALL_THR = [t2nlib.thr_bits(x) for x in (float("-inf"), -1.0, 0.0, 0.5, 1.0, 5.0, 9.0, 10.0, 10.5, 1e9, float("inf"), float("nan"))]
+THR0 = "0000000000000000"
+
+
+# ------------------------------------------------------------------------------------------------
+# C02: rewriting is local
+
+def oracle_c02(ctx, focus):
+    failures, n, distinct = [], 0, set()
+    reqs, meta = [], []
+    for li, lang in enumerate(LANGS):
+        rng = SplitMix64(ctx.seed * 101 + li)
+        bank = phrase_bank(ctx, lang)
+        texts = list(streams.bank(lang)["tests"])
+        for _ in range(1500 if ctx.tier != "thorough" else 30000):
+            t = sentence(rng, lang, bank, extra=["x-y", "l'a", "é", "日本", "á", "\U0001F600", "o", "neuf", "Ça", "naïve"])
+            if rng.chance(1, 5):
+                t = rng.choice([" ", "\t", "…", "(", "-", "'"]) + t
+            if rng.chance(1, 5):
+                t = t + rng.choice([" ", "\n", ".", "!", " -", "'"])
+            texts.append(t)
+        texts += ["", " ", "-", "--", "...", "a", "日本語", "no numbers here, at all."]
+        for t in texts:
+            th = rng.choice(ALL_THR)
+            reqs += ["tok\t" + esc(t), "occ\t%s\t%s\t%s" % (lang, th, esc(t)), "text\t%s\t%s\t%s" % (lang, th, esc(t))]
+            meta.append((lang, t))
+    outs = run_impl(ctx, "c02", reqs)
+    for i, (lang, t) in enumerate(meta):
+        tk, oc, tx = outs[3 * i], outs[3 * i + 1], outs[3 * i + 2]
+        rq = reqs[3 * i:3 * i + 3]
+        n += 3
+        if "PANIC" in (tk, oc, tx):
+            failures.append(fail(t, "PANIC", "returns", rq, lang=lang, what="panic"))
+            continue
+        toks = [unesc(x.split(":")[0]) for x in tk.split(",")] if tk else []
+        if "".join(toks) != t:
+            failures.append(fail(t, "tokens concat = %r" % "".join(toks), "lossless tokenization", [rq[0]], lang=lang, what="tokenize"))
+            continue
+        occs, otoks = parse_occ_answer(oc)
+        if [x[0] for x in otoks] != toks:
+            failures.append(fail(t, "occ tokens differ from tokenizer", "same tokens", rq[:2], lang=lang, what="tokens"))
+            continue
+        # splice
+        out, pos, bad = [], 0, False
+        for (s, e, text, _, _) in occs:
+            if not (pos <= s < e <= len(toks)):
+                bad = True
+                break
+            out.extend(toks[pos:s])
+            out.append(text)
+            pos = e
+        out.extend(toks[pos:])
+        got = unesc(tx)
+        if bad or "".join(out) != got:
+            failures.append(fail(t, got, "".join(out) if not bad else "ordered in-bounds spans", rq, lang=lang, what="splice"))
+        if not occs and got != t:
+            failures.append(fail(t, got, t, rq, lang=lang, what="no-number-identity"))
+        distinct.add((lang, len(occs), len(toks)))
+    # token-wise clause on streams: replaced trace of the scan answers (script stream, implementation side)
+    sreqs, simpl, _ = ctx._cache.get("script", ([], [], []))
+    for r, a in zip(sreqs, simpl):
+        n += 1
+        msg = check_replace_trace(r, a)
+        if msg:
+            failures.append(fail(r.split("\t", 3)[3], msg, "each token kept or handed once, in order, to the occurrence covering it", [r], what="stream-partition"))
+    ctx.samples["c02"] = [{"lang": meta[len(meta) // 2][0], "text": meta[len(meta) // 2][1]}]
+    return {"evaluations": n, "distinct_nontrivial": len(distinct) + len(set(simpl)), "failures": failures[:60],
+            "rule": "texts with punctuation/hyphens/apostrophes/multi-byte chars/several numbers: concat(tokens)=s, text=splice(tokens, occurrences); stream traces of the recording Replace"}
+
+
+def check_replace_trace(req, ans):
+    if ans == "PANIC":
+        return "PANIC"
+    parts = ans.split("|")
+    if len(parts) != 3:
+        return "malformed answer"
+    occs = [x for x in parts[0].split(",") if x]
+    ntok = len([x for x in req.split("\t")[3].split(" ") if x])
+    out = [x for x in parts[2].split(",") if x]
+    spans = []
+    for o in occs:
+        se = o.split(":")[0]
+        s, e = se.split("-")
+        spans.append((int(s), int(e), o.split(":")[1]))
+    seen = []
+    ri = 0
+    for x in out:
+        if x[0] == "K":
+            seen.append(int(x[1:]))
+        else:
+            m = re.fullmatch(r"R([^\[]*)\[([0-9.M]*)\]", x)
+            if not m:
+                return "malformed replaced token " + x
+            ch = [c for c in m.group(2).split(".") if c]
+            if "M" in ch:
+                return "replaced token swallowed another replacement"
+            ch = [int(c) for c in ch]
+            if ri >= len(spans):
+                return "more replacements than occurrences"
+            s, e, text = spans[ri]
+            ri += 1
+            if ch != list(range(s, e)) or m.group(1) != text:
+                return "replacement %s does not cover span %d-%d" % (x, s, e)
+            seen.extend(ch)
+    if ri != len(spans):
+        return "occurrence not replaced"
+    if seen != list(range(ntok)):
+        return "tokens lost, duplicated or reordered: %s" % seen[:20]
+    return None
+
+
+# ------------------------------------------------------------------------------------------------
+# C03: totality
+
+DEGENERATE = ["", " ", "   ", "\t\n", "-", "--", "a-", "-a", "- -", "a--b", "-'-", "'", "''", "l'", "...", " . ", ",", "日本語のテキスト",
+              "Ελληνικά ΣΊΣΥΦΟΣ", "á́́", "́", "e‍", "\U0001F600\U0001F600", "ǅ", "İstanbul", "ß", " ", " ",
+              "1", "123", "1st", "3.14", "½", "Ⅷ", "٣", "o", "O", "neuf", "un neuf", "point", "virgule", "and", "et", "y", "e", "und", "en",
+              "zero zero zero", "-zero-", "one-", "-one", "one--two", "twenty-", "vingt-et-", "ein-und-", "﻿one", "one\x00two", "x" * 5000]
+
+
+def oracle_c03(ctx, focus):
+    import vocab
+    failures, n = [], 0
+    reqs = []
+    thrs = [THR0, t2nlib.thr_bits(float("nan")), t2nlib.thr_bits(float("inf")), t2nlib.thr_bits(float("-inf")),
+            "8000000000000000", "0000000000000001", t2nlib.thr_bits(-1.5), t2nlib.thr_bits(10.0)]
+    rng = SplitMix64(ctx.seed + 3)
+    for lang in LANGS:
+        words = [w for w in vocab.source_literals(lang) if w and " " not in w and not w.isdigit()]
+        inputs = list(DEGENERATE)
+        inputs += [" ".join([w] * 50) for w in words[:: max(1, len(words) // (40 if ctx.tier != "thorough" else 400))]]
+        inputs.append(" ".join(rng.choice(words) for _ in range(20000 if ctx.tier != "thorough" else 100000)))
+        inputs.append("-".join(rng.choice(words) for _ in range(300)))
+        inputs.append("".join(rng.choice(words) for _ in range(300)))
+        for _ in range(300 if ctx.tier != "thorough" else 5000):
+            inputs.append(streams.random_text(rng, lang, 1 + rng.below(8)))
+        for pref in ("", "L:"):
+            for t in inputs:
+                reqs.append("val\t%s%s\t%s" % (pref, lang, esc(t)))
+                th = rng.choice(thrs)
+                reqs.append("text\t%s%s\t%s\t%s" % (pref, lang, th, esc(t)))
+                if len(t) < 3000:
+                    reqs.append("occ\t%s%s\t%s\t%s" % (pref, lang, rng.choice(thrs), esc(t)))
+                    toks = " ".join("%s,%s,%d,%d,%d" % (esc(w), esc(w.lower()), rng.below(8) == 0, 300 * i * (rng.below(3) == 0), 300 * i) for i, w in enumerate(t.split(" ")[:60]))
+                    reqs.append("scan\t%s%s\t%s\t%s" % (pref, lang, rng.choice(thrs), toks))
+    for c in DEGENERATE[:30] + ["en", "pt", "xx"]:
+        reqs.append("lookup\t" + esc(c))
+    outs = run_impl(ctx, "c03", reqs)
+    kinds = set()
+    for r, o in zip(reqs, outs):
+        n += 1
+        kinds.add((r.split("\t")[0], o[:6]))
+        if o == "PANIC" or o.startswith("PANIC"):
+            failures.append(fail(unesc(r.split("\t")[-1])[:200], "PANIC", "returns a value", [r if len(r) < 4000 else r[:4000]], lang=r.split("\t")[1], what="panic"))
+        if r.startswith("val\t") and not (o.startswith("OK:") or o.startswith("ERR:")):
+            failures.append(fail(unesc(r.split("\t")[-1])[:200], o[:50], "Ok or Err", [r[:4000]], what="validate-result"))
+    ctx.samples["c03"] = [{"request": reqs[5][:200], "answer": outs[5][:100]}]
+    return {"evaluations": n, "distinct_nontrivial": len(kinds) + len(set(outs)), "failures": failures[:40],
+            "rule": "degenerate inputs (empty, whitespace, hyphens, apostrophes, combining marks, mixed scripts, 20k-word phrases, repeated vocabulary) x all entry points x thresholds incl. NaN/inf/-0/subnormal, concrete and facade"}
+
+
+# ------------------------------------------------------------------------------------------------
+# C06: occurrences are well-formed and self-consistent
+
+MARK = {"en": ".", "script": "."}
+ORD_MARKERS = {
+    "en": ["ths", "th", "st", "nd", "rds", "rd"], "fr": ["èmes", "ème", "ers", "er", "ères", "ère"],
+    "es": ["º", "ª", "ᵒˢ", "ᵃˢ", ".ᵉʳ"], "pt": ["º", "ª", "ᵒˢ", "ᵃˢ"], "it": ["º", "ª"], "de": ["."], "nl": ["e"],
+    "script": ["th"],
+}
+
+
+def read_numeral(lang, text):
+    """independent reader of an occurrence text: returns (value_bits, is_ordinal) or None if malformed"""
+    mark = MARK.get(lang, ",")
+    if lang == "es" and text.startswith("1/"):
+        d = text[2:]
+        if not re.fullmatch(r"[0-9]+", d):
+            return None
+        v = float(d)
+        return (t2nlib.f64bits(1.0 / v if v != 0 else float("inf")), False)
+    m = re.fullmatch(r"([0-9]+)(?:%s([0-9]+))?(.*)" % re.escape(mark), text, re.S)
+    if not m:
+        return None
+    rest = m.group(3)
+    if rest and rest not in ORD_MARKERS[lang]:
+        return None
+    if rest and m.group(2) is not None:
+        return None          # a decimal never carries an ordinal marker
+    num = m.group(1) + ("." + m.group(2) if m.group(2) is not None else "")
+    return (t2nlib.f64bits(float(num)), bool(rest))
+
+
+def check_occs(lang, occs, toks_text, skipped):
+    """yield problems of an occurrence list; toks_text: token texts; skipped(i): token i is whitespace or '-'"""
+    last_end = 0
+    for (s, e, text, is_ord, vb) in occs:
+        if not (0 <= s < e <= len(toks_text)):
+            yield "span %d-%d outside the stream of %d tokens" % (s, e, len(toks_text))
+            continue
+        if s < last_end:
+            yield "spans not increasing/disjoint at %d-%d" % (s, e)
+        last_end = e
+        if skipped(s) or skipped(e - 1):
+            yield "span %d-%d does not begin and end on a word token" % (s, e)
+        r = read_numeral(lang, text)
+        if r is None:
+            yield "text %r is not a well-formed numeral" % text
+            continue
+        if r[0] != vb:
+            yield "value bits %s differ from the reading of %r (%s)" % (vb, text, r[0])
+        if r[1] != is_ord:
+            yield "is_ordinal=%s but text %r %s an ordinal marker" % (is_ord, text, "carries" if r[1] else "has no")
+
+
+def _is_skipped_text(t):
+    return t == "-" or all(c.isspace() for c in t)
+
+
+def oracle_c06(ctx, focus):
+    failures, n, distinct = [], 0, set()
+    reqs, meta = [], []
+    for li, lang in enumerate(LANGS):
+        rng = SplitMix64(ctx.seed * 211 + li)
+        bank = phrase_bank(ctx, lang)
+        b = streams.bank(lang)
+        for _ in range(2500 if ctx.tier != "thorough" else 40000):
+            if rng.chance(1, 2):
+                t = sentence(rng, lang, bank, extra=[b["dec"], b["dec"], "o", "neuf"])
+            else:
+                t = streams.random_text(rng, lang, 1 + rng.below(8), phrases=bank)
+            # ordinals followed by the decimal separator, conjunctions at the edges ...
+            if rng.chance(1, 6):
+                t = t + " " + b["dec"] + " " + rng.choice(bank)
+            reqs.append("occ\t%s\t%s\t%s" % (lang, rng.choice(ALL_THR), esc(t)))
+            meta.append((lang, t))
+    outs = run_impl(ctx, "c06", reqs)
+    for r, o, (lang, t) in zip(reqs, outs, meta):
+        n += 1
+        occs, toks = parse_occ_answer(o)
+        if occs is None:
+            failures.append(fail(t, "PANIC", "returns", [r], lang=lang, what="panic"))
+            continue
+        tt = [x[0] for x in toks]
+        for msg in check_occs(lang, occs, tt, lambda i: _is_skipped_text(tt[i])):
+            failures.append(fail(t, msg, "well-formed, self-consistent occurrence", [r], lang=lang, what="occurrence"))
+        for oc in occs:
+            distinct.add((lang, oc[2]))
+    # scan answers of the correspondence streams (hints, custom tokens), implementation side
+    for key in list(ctx._cache.keys()):
+        if not (key.startswith("scan_") or key == "script"):
+            continue
+        sreqs, simpl, _ = ctx._cache[key]
+        for r, a in zip(sreqs, simpl):
+            n += 1
+            if a == "PANIC":
+                failures.append(fail(r[:300], "PANIC", "returns", [r], what="panic"))
+                continue
+            f = r.split("\t")
+            lang = f[1].split(":")[-1]
+            toks = [unesc(x.split(",")[0]) for x in f[3].split(" ") if x]
+            occs = []
+            for x in a.split("|")[0].split(","):
+                if x:
+                    se, text, od, vb = x.split(":")
+                    s, e = se.split("-")
+                    occs.append((int(s), int(e), unesc(text), od == "1", vb))
+            for msg in check_occs(lang, occs, toks, lambda i: _is_skipped_text(toks[i])):
+                failures.append(fail(f[3][:300], msg, "well-formed, self-consistent occurrence", [r], lang=lang, what="occurrence"))
+    ctx.samples["c06"] = [{"lang": meta[7][0], "text": meta[7][1], "answer": outs[7][:200]}]
+    return {"evaluations": n, "distinct_nontrivial": len(distinct), "failures": failures[:60],
+            "rule": "every occurrence reported on random sentences (all thresholds) and on the token streams of the correspondence step, re-read by an independent numeral reader; distinct = distinct occurrence texts"}
+
+
+# ------------------------------------------------------------------------------------------------
+# C07: scanner and validator agree
+
+def oracle_c07(ctx, focus):
+    import vocab
+    failures, n, distinct = [], 0, set()
+    for li, lang in enumerate(LANGS):
+        rng = SplitMix64(ctx.seed * 307 + li)
+        bank = phrase_bank(ctx, lang)
+        numwords = [w for w in vocab.source_literals(lang) if w and " " not in w and not w.isdigit() and w.isalpha() and len(w) < 24]
+        streams_ = []
+        for _ in range(4000 if ctx.tier != "thorough" else 100000):
+            k = 1 + rng.below(7)
+            ws = []
+            for _ in range(k):
+                r = rng.below(10)
+                if r < 5:
+                    ws.append(rng.choice(numwords))
+                elif r < 8:
+                    ws.extend(rng.choice(bank).split(" "))
+                else:
+                    ws.append(rng.choice(streams.ORDINARY[lang]))
+            if rng.chance(1, 4):
+                w = rng.choice(numwords)
+                ws += [w, w]          # repeated scale words etc.
+            streams_.append([w.lower() for w in ws if w])
+        # phase 1: scan each stream (threshold 0, no annotation: plain tokens), validate the whole phrase
+        reqs = []
+        for ws in streams_:
+            toks = " ".join("%s,%s" % (esc(w), esc(w)) for w in ws)
+            reqs.append("scan\t%s\t%s\t%s" % (lang, THR0, toks))
+            reqs.append("val\t%s\t%s" % (lang, esc(" ".join(ws))))
+        outs = run_impl(ctx, "c07a" + lang, reqs)
+        # phase 2: validate the words of every non-decimal span, and every unconverted word
+        reqs2, meta2 = [], []
+        mark = MARK.get(lang, ",")
+        for i, ws in enumerate(streams_):
+            sc, va = outs[2 * i], outs[2 * i + 1]
+            n += 2
+            if sc == "PANIC":
+                failures.append(fail(" ".join(ws), "PANIC", "returns", [reqs[2 * i]], lang=lang, what="panic"))
+                continue
+            occs = []
+            for x in sc.split("|")[0].split(","):
+                if x:
+                    se, text, od, vb = x.split(":")
+                    s, e = se.split("-")
+                    occs.append((int(s), int(e), unesc(text)))
+            covered = set()
+            for (s, e, text) in occs:
+                covered |= set(range(s, e))
+                num = text[2:] if text.startswith("1/") else text
+                if mark in num.rstrip(".") and re.match(r"^[0-9]+%s[0-9]" % re.escape(mark), num):
+                    continue          # decimal occurrence
+                reqs2.append("val\t%s\t%s" % (lang, esc(" ".join(ws[s:e]))))
+                meta2.append(("span", ws, (s, e, text), reqs[2 * i]))
+            if va.startswith("OK:"):
+                d = unesc(va[3:])
+                if len(occs) != 1 or occs[0][2] != d:
+                    failures.append(fail(" ".join(ws), "scanner: %s" % sc.split("|")[0], "one occurrence with text %s" % d,
+                                         [reqs[2 * i], reqs[2 * i + 1]], lang=lang, what="valid-phrase-not-one-number"))
+            for j, w in enumerate(ws):
+                if j not in covered:
+                    reqs2.append("val\t%s\t%s" % (lang, esc(w)))
+                    meta2.append(("left", ws, j, reqs[2 * i]))
+            distinct.add((lang, sc.split("|")[0]))
+        outs2 = run_impl(ctx, "c07b" + lang, reqs2)
+        for r, o, m in zip(reqs2, outs2, meta2):
+            n += 1
+            if m[0] == "span":
+                _, ws, (s, e, text), r1 = m
+                if o != "OK:" + esc(text):
+                    failures.append(fail(" ".join(ws), "span %d-%d text %s but its words validate to %s" % (s, e, text, unesc(o)),
+                                         "validate(words of the span) = Ok(%s)" % text, [r1, r], lang=lang, what="span-vs-validator"))
+            else:
+                _, ws, j, r1 = m
+                if o.startswith("OK:"):
+                    failures.append(fail(" ".join(ws), "word %r (#%d) validates to %s but lies in no occurrence" % (ws[j], j, unesc(o)),
+                                         "every valid number word inside an occurrence at threshold 0", [r1, r], lang=lang, what="left-spelled"))
+    ctx.samples["c07"] = [{"lang": "it", "stream": " ".join(streams_[3])}]
+    return {"evaluations": n, "distinct_nontrivial": len(distinct), "failures": failures[:60],
+            "rule": "random word streams over each language's full vocabulary (repeated scale words, conjunctions anywhere): scanner spans re-validated, valid phrases re-scanned, unconverted words re-validated"}
